@@ -148,6 +148,16 @@ def gen_spec(rng, text: str, cheap_only: bool) -> tuple[dict, str]:
     else:
         spec["log"] = rng.choice(["verbose", "trace", "0"])
         cls += "|log:invalid"
+    present = [k for k in ("enable", "inp", "out", "log") if k in spec]
+    if present and rng.random() < 0.1:
+        # conventions of the option parser: unambiguous abbreviations, the same option twice with the same value
+        sp: dict = {}
+        if rng.random() < 0.7:
+            sp["abbrev"] = {k: rng.choice(climodel.abbreviations(k)) for k in present if rng.random() < 0.6}
+        if not sp.get("abbrev") or rng.random() < 0.5:
+            sp["repeat"] = rng.sample(present, rng.choice([1, 1, 2]) if len(present) > 1 else 1)
+        spec["sp"] = sp
+        cls += "|sp:" + "+".join(sorted(k for k in sp if sp[k]))
     return spec, cls
 
 
@@ -296,6 +306,47 @@ def run(args) -> int:
                     "spec": spec,
                     "argv": climodel.render(spec, krng),
                     "acls": "enum-kw",
+                    "scls": "one-block/drain4096/random/pipe",
+                    "chunks": [],
+                    "drain_seed": 0,
+                    "drain_sizes": [4096],
+                    "drain_policy": "random",
+                    "buffering": "pipe",
+                    "small_pipes": True,
+                }
+            )
+    # option-parser conventions, systematically, on the probe: every option abbreviated (shortest, a middle and the
+    # longest proper prefix) and every option given twice with the same value; judged leniently (model: §3.2)
+    if cfg["enumerate"]:
+        srng = stream(seed, "c19", "enum-sp")
+        ptext = progs["probe"]
+        pheads, _ = workload._heads_and_bodies(ptext)  # pylint: disable=protected-access
+        ppreds = workload.predicates_of(ptext)
+        pin = [q for q in ppreds if q not in pheads][:3] or ppreds[:1]
+        pout = [q for q in ppreds if q in pheads][:2] or ppreds[:1]
+        base = {
+            "enable": ["default", "duplication"],
+            "inp": ",".join(f"{n}/{a}" for n, a in pin),
+            "out": ", ".join(f"{n}/{a}" for n, a in pout),
+            "log": "warning",
+        }
+        specs = []
+        for key in ("enable", "inp", "out", "log"):
+            ab = climodel.abbreviations(key)
+            for short in sorted({ab[0], ab[len(ab) // 2], ab[-1]}):
+                specs.append({**base, "sp": {"abbrev": {key: short}}})
+            specs.append({**base, "sp": {"repeat": [key]}})
+            specs.append({key: base[key], "sp": {"repeat": [key]}})
+        specs.append({**base, "sp": {"abbrev": {k: climodel.abbreviations(k)[0] for k in base}}})
+        specs.append({**base, "sp": {"repeat": list(base)}})
+        specs.append({"enable": ["math"], "inp": "NOVALUE", "out": "NOVALUE", "sp": {"repeat": ["inp", "out"]}})
+        for spec in specs:
+            runs.append(
+                {
+                    "program": "probe",
+                    "spec": spec,
+                    "argv": climodel.render(spec, srng),
+                    "acls": "enum-sp",
                     "scls": "one-block/drain4096/random/pipe",
                     "chunks": [],
                     "drain_seed": 0,
